@@ -1428,7 +1428,7 @@ def attribute(ck, hbin, sp, tr, law, idx, uo=None):
         if law == "self" and usp[0] == "so3":
             q_ = sub[vs[0][1][0]]
             tags["below_clamp_norm"] = bool(sum(x * x for x in q_) <= 1 - QERR + 1e-15)
-        if law == "positive" and usp[0] == "klein":
+        if law == "positive" and unit_kind(usp) == "klein":          # also a Klein bottle with changed weights (a `hist` unit)
             a_, b_ = sub[vs[0][1][0]], sub[vs[0][1][1]]
             tags["glued_boundary"] = bool(abs(abs(a_[0] - b_[0]) - PI) < 1e-12)
         if law == "positive" and usp[0] in IMPL_ONLY:
